@@ -556,6 +556,11 @@ func c07Scenarios(tier string) []c07Params {
 		{Name: "evalna-vs-set-with-whereeval-channel", Pre: append(append([][]string{}, pre...), []string{"SETCHAN", "whe", "WITHIN", "k", "WHEREEVAL", "return FIELDS.f ~= nil and FIELDS.f > 0", "0", "FENCE", "BOUNDS", "-90", "-180", "90", "180"}),
 			Conns: [][][]string{{{"EVALNA", "local a = tile38.call('GET','k','a'); local b = tile38.call('GET','k','b'); return {a, b}", "0"}}, one("SET k a FIELD f 2 POINT 3 3")},
 			Model: map[string][][]string{"0.0": {}}},
+		// a script that assigns to the global naming its own flavour: the locking must not follow it
+		{Name: "evalna-assigning-eval-cmd-vs-get", Pre: pre, Conns: [][][]string{{{"EVALNA", "EVAL_CMD = 'eval'; return tile38.call('SET','k','n','POINT',7,7)", "0"}}, two("GET k n", "SCAN k")},
+			Model: map[string][][]string{"0.0": {w("SET k n POINT 7 7")}}, NonAtomic: map[string]bool{"0.0": true}},
+		{Name: "evalro-assigning-eval-cmd-vs-set", Pre: pre, Conns: [][][]string{{{"EVALRO", "EVAL_CMD = 'eval'; return tile38.pcall('SET','k','n','POINT',7,7)", "0"}}, one("SET k b POINT 5 5")},
+			Model: map[string][][]string{"0.0": {}}},
 		{Name: "set-vs-sweeper", Pre: append(pre, w("SET k e EX 1.1 POINT 6 6")), Conns: [][][]string{one("SET k e POINT 6 6"), one("GET k e")}, Expire: true},
 	}
 	if tier == "thorough" {
